@@ -7,6 +7,9 @@ CONSTANTS NB = 4
  BugAddMiddle = TRUE
  BugTxLoopVar = FALSE
  BugConfirmRace = FALSE
+ MaxBatch = 0
+ NBatch = 0
+ BugBatchBreak = FALSE
 INVARIANTS CacheSorted
 PROPERTY Forward
 CHECK_DEADLOCK FALSE
